@@ -784,7 +784,13 @@ func (i *IRCServer) generateCaptchaURL(s *Session, purpose string) string {
 		base64.StdEncoding.EncodeToString(mac.Sum(nil)),
 	}, ".")
 
-	u, _ := url.Parse(i.Config.CaptchaURL)
+	u, err := url.Parse(i.Config.CaptchaURL)
+	if err != nil {
+		// An unparsable CaptchaURL is a configuration error. Do not crash the
+		// state machine (and with it every node) when applying an entry;
+		// append the fragment to the configured string verbatim.
+		return i.Config.CaptchaURL + "#" + parts
+	}
 	if u.Path == "" {
 		u.Path = "/"
 	}
